@@ -556,6 +556,32 @@ def negative_index(prog: Program, modules: Set[str]) -> List[Instance]:
             out.append(Instance("R-NEGIDX", f"{fi.qual}#int-to-slice:{idx}", OK if ok else BAD,
                                 f"integer index `{idx}` is {'adjusted' if adjusted else 'rejected'} for negative values before becoming slice({idx}, {idx} + 1)" if ok
                                 else f"`{short(n)}` turns an integer index into a slice without handling negative values: index -1 becomes slice(-1, 0), a negative-length region", fi.where(n)))
+    # slice *bounds* (not integer indexes): a negative bound counts from the end but is clamped at the start,
+    # x[-15:] on ten elements is x[0:]; `n + x` alone stays negative and is wrapped a second time by the user
+    for fi in prog.all_functions(modules):
+        for n in walk_own(fi.node):
+            if not isinstance(n, ast.IfExp):
+                continue
+            t = n.test
+            if not (isinstance(t, ast.Compare) and len(t.ops) == 1 and isinstance(t.left, ast.Name) and isinstance(t.comparators[0], ast.Constant) and t.comparators[0].value == 0):
+                continue
+            x = t.left.id
+            neg_branch = n.orelse if isinstance(t.ops[0], (ast.GtE, ast.Gt)) else n.body if isinstance(t.ops[0], (ast.Lt, ast.LtE)) else None
+            pos_branch = n.body if neg_branch is n.orelse else n.orelse
+            if neg_branch is None or not (isinstance(pos_branch, ast.Name) and pos_branch.id == x):
+                continue
+            adds = [b for b in ast.walk(neg_branch) if isinstance(b, ast.BinOp) and isinstance(b.op, ast.Add) and x in {short(b.left), short(b.right)}]
+            if not adds:
+                continue
+            # only where the value becomes a slice bound
+            st = enclosing_stmt(n)
+            feeds_slice = any(isinstance(c, ast.Call) and call_name(c) == "slice" for y in walk_own(fi.node) if isinstance(y, ast.Return) and y.value is not None for c in ast.walk(y.value))
+            if not feeds_slice:
+                continue
+            clamped = isinstance(neg_branch, ast.Call) and call_name(neg_branch) == "max" and any(const_num(a) == 0 for a in neg_branch.args)
+            out.append(Instance("R-NEGIDX", f"{fi.qual}#bound-wrap:{x}", OK if clamped else BAD,
+                                f"negative slice bound `{x}` counts from the end and is clamped at 0" if clamped else
+                                f"`{short(n, 60)}` resolves a negative slice bound as `{short(adds[0])}` without clamping at 0: a bound reaching past the start stays negative and wraps a second time (x[-15:] on 10 elements becomes x[-5:])", fi.where(n)))
     return out
 
 
